@@ -1,7 +1,7 @@
 From Coq Require Import Extraction ExtrOcamlBasic NArith ZArith List.
-From SV.Str Require Import Common Quote HtmlEsc Unquote Utf8 RefUtf8 AstQuote JitString.
+From SV.Str Require Import Common Quote HtmlEsc Unquote Utf8 RefUtf8 AstQuote JitString Utf8Simd.
 Extraction Language OCaml.
 Separate Extraction quote go_quote grow_exact encoder_quote html_escape go_html_escape unquote go_into_bytes
   validate_utf8_fast validate_utf8 correct_with_msize go_validate quote_string
-  wf first_bad replace_invalid ws_avx2 ws_sse jit_unquote_twice
+  wf first_bad replace_invalid ws_avx2 ws_sse jit_unquote_twice validate_utf8_avx2 validate_utf8_fast_avx2
   N.of_nat N.to_nat Z.of_nat Z.to_nat Z.of_N Z.to_N.
